@@ -32,6 +32,12 @@ CHECKS = {
     "C11": ("model_checking", MC,
             "Three real members race in one epoch; every interleaving (to the depth bound) of commit / commit_detached / clear / apply / apply_detached with any kept secrets / delivery of any candidate commit, with any candidate as the epoch's winner, is executed and judged against a reference machine {epoch, pending} per member, complete-state equality for what must not change, and the epoch ledger for what advances.",
             "Trusted: explorer, hook verif_state. 3 members, depth 4 (quick) / 6 (thorough), public and encrypted handshake.", "DESIGN.md 2/C11"),
+    "C13": ("model_checking", GRID + "; plus conformance of every epoch of scripted real groups to the reference (shadow joiner)",
+            "Every derivation (key schedule, secret tree, per-generation keys, PSK chain, exporter, ExpandWithLabel) is compared with an independent RFC 9420 implementation over an enumerated input grid for every suite of every provider, and every epoch of scripted real groups is re-derived by the reference from the Welcome's joiner secret / the previous init secret and compared with what the members hold, including transcript hashes and tags recomputed from wire bytes.",
+            "Trusted: reference::keysched on sha2/hmac; hook derive::* (thin wrappers over the crate-private functions) and verif_epoch_keys (read-only).", "DESIGN.md 2/C13"),
+    "C20": ("model_checking", "exhaustive enumeration of all tree sizes 2^0..2^12 and all node indices / leaf pairs against the recursive RFC definitions (sizes above 2^12: spines exhaustive, interior sampled and reported as sampled)",
+            "All node indices of all full trees up to 2^12 leaves (and 8 beyond), all leaf pairs up to 2^10 (quick) / 2^12 (thorough) leaves, against the recursive Appendix C definitions.",
+            "Trusted: reference::treemath (recursive definitions). Sizes 2^13..2^24 are partly sampled (VERIF_SEED) and not counted as exhaustive.", "DESIGN.md 2/C20"),
     "C15": ("fault_enumeration", "exhaustive single and pairwise storage-fault enumeration on every operation of every explored history (real implementation, harness-owned stores with a fault plan)",
             "For every history (to the depth bound) of a target member and every operation in it, every storage call the operation makes is failed once and in pairs on forks: the operation must fail, leave complete state and stores unchanged, and a fault-free retry must end exactly like the fault-free twin.",
             "Trusted: explorer, harness stores implementing the documented store semantics (the shipped stores are exercised in C06/C19), hook verif_state. Faults are injected between trait calls; torn writes inside one call are out of reach of the seam.", "DESIGN.md 2/C15"),
